@@ -253,66 +253,7 @@ Loop:
 			continue
 		}
 
-		// the queued messages have been sent to redis in bulk,
-		// and the messages are finally assembled and sent to
-		// the client when and only when all the messages have been processed
-
-		// replies are delivered in request order: everything up to the first request that is
-		// still waiting for a backend can go out now, later completed requests wait behind it
-		if !c.inMsgQueue.head.Done {
-			continue
-		}
-
-		var bs = make([][]byte, c.inMsgQueue.count)
-		bs = bs[:0]
-		cur := c.inMsgQueue.head
-
-		var curId uint64
-		var curFd = c.fd
-
-		for cur != nil && cur.Done {
-			curId = cur.Id
-			bs = append(bs, cur.RspBody)
-			logging.Debugfunc(func() string { return fmt.Sprintf("[%dm][%dc] got res: %s", cur.Id, c.Fd(), cur.RspBodyString()) })
-			cur = cur.prev
-		}
-		flushed := len(bs)
-
-		for len(bs) > 0 {
-			var r = len(bs)
-			if r >= iovMax {
-				r = iovMax
-			}
-
-			if _, err = c.writev(bs[0:r]); err != nil {
-				logging.Warnf("[%dm][%dc] write to client failed, error: %s, body: %s", cur.Id, c.fd, err, cur.RspBodyString())
-				break
-			}
-			if !c.opened {
-				logging.Warnf("[%dm][%dc] write failed because of client closed", curId, curFd)
-				break
-			}
-			bs = bs[r:]
-		}
-
-		if _, err = c.writev(bs); err != nil {
-			logging.Warnf("[%dm][%dc] write to client failed, error: %s, body: %s", cur.Id, c.fd, err, cur.RspBodyString())
-			continue
-		}
-
-		if !c.opened {
-			logging.Warnf("[%dm][%dc] write failed because of client closed", curId, curFd)
-			continue
-		}
-
-		// release the flushed Msg
-		for ; flushed > 0; flushed-- {
-			msg := c.dequeueInMsg()
-			if msg == nil {
-				break
-			}
-			MsgPool.Put(msg)
-		}
+		el.flushDone(c)
 
 		// Check the status of connection every loop since it might be closed
 		// during writing data back to the peer due to some kind of system error.
@@ -323,6 +264,68 @@ Loop:
 
 	_, _ = s.inboundBuffer.Write(s.buffer)
 	return nil
+}
+
+// flushDone writes the replies of the completed requests at the head of the client's queue
+// back to the client, in request order, and releases them.
+func (el *eventloop) flushDone(c *conn) {
+	var err error
+	// replies are delivered in request order: everything up to the first request that is
+	// still waiting for a backend can go out now, later completed requests wait behind it
+	if !c.opened || c.inMsgQueue.Empty() || !c.inMsgQueue.head.Done {
+		return
+	}
+
+	var bs = make([][]byte, c.inMsgQueue.count)
+	bs = bs[:0]
+	cur := c.inMsgQueue.head
+
+	var curId uint64
+	var curFd = c.fd
+
+	for cur != nil && cur.Done {
+		curId = cur.Id
+		bs = append(bs, cur.RspBody)
+		logging.Debugfunc(func() string { return fmt.Sprintf("[%dm][%dc] got res: %s", cur.Id, c.Fd(), cur.RspBodyString()) })
+		cur = cur.prev
+	}
+	flushed := len(bs)
+
+	for len(bs) > 0 {
+		var r = len(bs)
+		if r >= iovMax {
+			r = iovMax
+		}
+
+		if _, err = c.writev(bs[0:r]); err != nil {
+			logging.Warnf("[%dm][%dc] write to client failed, error: %s", curId, curFd, err)
+			break
+		}
+		if !c.opened {
+			logging.Warnf("[%dm][%dc] write failed because of client closed", curId, curFd)
+			break
+		}
+		bs = bs[r:]
+	}
+
+	if _, err = c.writev(bs); err != nil {
+		logging.Warnf("[%dm][%dc] write to client failed, error: %s", curId, curFd, err)
+		return
+	}
+
+	if !c.opened {
+		logging.Warnf("[%dm][%dc] write failed because of client closed", curId, curFd)
+		return
+	}
+
+	// release the flushed Msg
+	for ; flushed > 0; flushed-- {
+		msg := c.dequeueInMsg()
+		if msg == nil {
+			break
+		}
+		MsgPool.Put(msg)
+	}
 }
 
 const iovMax = 1024
@@ -511,7 +514,14 @@ func (el *eventloop) msgTimeout() {
 			logging.Warnf("[%dm|%df][%dc] try to send request timeout but client already closed", frag.MsgId(), frag.Id, frag.OwnerFd())
 			continue
 		}
-		c.AsyncWrite(codec.ErrMsgRequestTimeout.Bytes(), nil)
+		// the timeout error is the reply of this request: complete it in place so that it is
+		// delivered in its pipeline position and the requests queued behind it can be flushed
+		msg.RspBody = append(msg.RspBody[:0], codec.ErrMsgRequestTimeout.Bytes()...)
+		msg.FragDoneNumber = len(msg.Body)
+		msg.Done = true
+		if cc, ok := c.(*conn); ok {
+			el.flushDone(cc)
+		}
 		logging.Warnf("[%dm|%df][%dc] request timeout, consider raising config '[proxy]timeout=%d', send res: %s", frag.MsgId(), frag.Id, frag.OwnerFd(), el.engine.opts.RedisRequestTimeout, codec.ErrMsgRequestTimeout.ShortString())
 	}
 }
